@@ -50,7 +50,8 @@ import (
 //	C07.add id dt qname cid ip ipAnon reason isFiltered variant   => rt m c r
 //	C07.addthen <add fields> clear|shutdown|restart m f e         => rt m c r   (the op overtakes the flush goroutine of Add)
 //	C07.shutdown | C07.rotate | C07.clear                      => m c r
-//	C07.rotcheck dt                                            => m c r
+//	C07.addat id rel <rest of the add fields>                  => rt m c r   (the clock was stepped: the record gets time base+rel, possibly before earlier records)
+//	C07.rotcheck dt [touch]                                    => m c r      (touch=1: a zero-byte querylog.json is there when checkAndRotate runs, if none exists)
 //	C07.restart memSize fileEnabled enabled                    => m c r
 //	C07.putconf enabled anonymize ivlMs nRules rule* nHosts host* => code m c r
 //	C07.clients n {id name ignore}*                            => m c r
@@ -377,12 +378,28 @@ func (c *c07Ctx) add(f []string) []string {
 	id, dt := vutil.Atoi(f[1]), vutil.Atoi(f[2])
 	qname, cid, ipText := vutil.Unhex(f[3]), vutil.Unhex(f[4]), vutil.Unhex(f[5])
 	reason, isF, variant := vutil.Atoi(f[7]), vutil.UnB(f[8]), vutil.Atoi(f[9])
-	time.Sleep(time.Duration(dt))
+	// C07.addat: the system clock has been stepped (NTP correction, manual
+	// change): the record gets the time base+rel, which may lie before the
+	// time of earlier records.  The fake clock of the bubble cannot go back, so
+	// the time.Now() reading inside Add is replaced below.
+	var at time.Time
+	if f[0] == "C07.addat" {
+		rel, perr := strconv.ParseInt(f[2], 10, 64)
+		if perr != nil {
+			panic(perr)
+		}
+		at = c.base.Add(time.Duration(rel))
+	} else {
+		time.Sleep(time.Duration(dt))
+	}
 	ctx := context.Background()
 	l := c.l
 
 	// Reference record: what Add records at this instant.
 	ref := newLogEntry(ctx, l.logger, c07Params(qname, cid, ipText, reason, isF, variant))
+	if !at.IsZero() {
+		ref.Time = at
+	}
 	ts := c.rel(ref.Time)
 	refJSON := c07ViaJSON(l.entryToJSON(ctx, ref, func(net.IP) {}))
 
@@ -410,9 +427,30 @@ func (c *c07Ctx) add(f []string) []string {
 	}()
 
 	params := c07Params(qname, cid, ipText, reason, isF, variant)
-	if f[0] == "C07.addthen" {
+	switch f[0] {
+	case "C07.addthen":
 		c.addThen(params, f[10:])
-	} else {
+	case "C07.addat":
+		// The flush goroutine Add may start is held back on the flush lock
+		// until the record carries the stepped clock reading; it then encodes
+		// the record exactly as if time.Now() had returned that reading.
+		func() {
+			l.fileFlushLock.Lock()
+			defer l.fileFlushLock.Unlock()
+			l.Add(params)
+			l.bufferLock.Lock()
+			defer l.bufferLock.Unlock()
+			var last *logEntry
+			l.buffer.Range(func(e *logEntry) bool {
+				last = e
+
+				return true
+			})
+			if enabled && last != nil {
+				last.Time = at
+			}
+		}()
+	default:
 		l.Add(params)
 	}
 	// Let the flush goroutine, if any, finish.
@@ -744,7 +782,7 @@ func c07Run(f []string) []string {
 	}
 	l := c.l
 	switch op {
-	case "C07.add", "C07.addthen":
+	case "C07.add", "C07.addthen", "C07.addat":
 		return c.add(f)
 	case "C07.shutdown":
 		_ = l.Shutdown(ctx)
@@ -758,7 +796,29 @@ func c07Run(f []string) []string {
 		return c.dump()
 	case "C07.rotcheck":
 		time.Sleep(time.Duration(vutil.Atoi(f[1])))
+		// touch: the current file exists but has no bytes (what flushToFile
+		// leaves behind when it has created the file and the first write fails,
+		// or a crash right after the creation) when the start-up / hourly
+		// rotation check runs.  The zero-byte file is taken away again after the
+		// check: every other operation sees "a file exists iff it has records".
+		touch := len(f) > 2 && vutil.UnB(f[2])
+		if touch {
+			if _, err := os.Stat(l.logFile); os.IsNotExist(err) {
+				if werr := os.WriteFile(l.logFile, nil, 0o644); werr != nil {
+					panic(werr)
+				}
+			}
+		}
 		l.checkAndRotate(ctx)
+		if touch {
+			if st, err := os.Stat(l.logFile); err == nil && st.Size() == 0 {
+				_ = os.Remove(l.logFile)
+			}
+			// a zero-byte file moved over the rotated one is "no records" too
+			if st, err := os.Stat(l.logFile + ".1"); err == nil && st.Size() == 0 {
+				_ = os.Remove(l.logFile + ".1")
+			}
+		}
 
 		return c.dump()
 	case "C07.clear":
@@ -1418,6 +1478,13 @@ func (g *c07Gen) block() {
 			g.emit("C07.shutdown")
 		case k < 73:
 			g.emit("C07.rotate")
+			if r.IntN(2) == 0 {
+				// the rotation check finds a zero-byte current file next to the
+				// (young) rotated one
+				dt := 1 + r.Int64N(1_000_000_000)
+				g.clock += dt
+				g.emit("C07.rotcheck", strconv.FormatInt(dt, 10), "1")
+			}
 		case k < 76:
 			var dt int64
 			if r.IntN(2) == 0 {
@@ -1433,7 +1500,7 @@ func (g *c07Gen) block() {
 				dt = 1 + r.Int64N(1_000_000_000)
 			}
 			g.clock += dt
-			g.emit("C07.rotcheck", strconv.FormatInt(dt, 10))
+			g.emit("C07.rotcheck", strconv.FormatInt(dt, 10), vutil.B(r.IntN(2) == 0))
 		case k < 77:
 			g.emit("C07.clear")
 		case k < 80:
@@ -1478,6 +1545,90 @@ func (g *c07Gen) block() {
 	}
 	if r.IntN(3) == 0 {
 		g.flushRace()
+	}
+}
+
+// steppedBlock is a history in which the system clock is stepped back between
+// records (NTP correction, manual change): records, flushes, rotations and
+// restarts, then requests without older_than.  What is judged there: every
+// answer is newest first by the recorded times, holds recorded entries once,
+// and is the whole visible log when offset 0 / a covering limit ask for it.
+func (g *c07Gen) steppedBlock() {
+	r := g.r
+	pick := func(pool []string, n int) (out []string) {
+		for i := 0; i < n; i++ {
+			out = append(out, vutil.Pick(r, pool))
+		}
+
+		return out
+	}
+	g.hosts = pick(c07HostPool, 3+r.IntN(4))
+	g.cids = pick(c07CIDPool, 2+r.IntN(3))
+	g.ips = pick(c07IPPool, 2+r.IntN(3))
+	g.names = pick(c07NamePool, 2+r.IntN(3))
+	g.clock, g.nextID, g.added = 0, 0, nil
+	g.memSize = vutil.Pick(r, []int{0, 1, 2, 3, 5, 8, 100, 100})
+	g.fileOn = r.IntN(6) != 0
+	g.enabled, g.anon, g.ivlMs, g.curRules = true, false, 24*3600_000, nil
+	f := []string{"1", strconv.Itoa(g.memSize), vutil.B(g.fileOn), "1", strconv.Itoa(g.ivlMs)}
+	f = append(f, g.ignoredFields(nil)...)
+	f = append(f, g.clientFields()...)
+	g.emit(append([]string{"C07.reset"}, f...)...)
+
+	t := int64(1_000_000_000_000) + r.Int64N(1_000_000_000)
+	used := map[int64]bool{}
+	read := func() {
+		limit := vutil.Pick(r, []string{"", "", "500", "200", "1", "2", "3", "5"})
+		offset := vutil.Pick(r, []string{"", "", "0", "0", "1", "2"})
+		term, status := "", ""
+		if r.IntN(4) == 0 {
+			term = g.term()
+		}
+		if r.IntN(5) == 0 {
+			status = vutil.Pick(r, c07Statuses)
+		}
+		g.emitSearch(0, "none", "-", limit, offset, term, status)
+	}
+	for i, n := 0, 6+r.IntN(16); i < n; i++ {
+		switch k := r.IntN(100); {
+		case k < 68:
+			if r.IntN(3) == 0 {
+				t -= 1 + r.Int64N(5_000_000_000)
+			} else {
+				t += 1 + r.Int64N(5_000_000)
+			}
+			for used[t] || t <= 0 {
+				t++
+			}
+			used[t] = true
+			g.nextID++
+			host := vutil.Pick(r, g.hosts)
+			qn := g.qname(host)
+			cid := vutil.Pick(r, g.cids)
+			ip := vutil.Pick(r, g.ips)
+			reason := r.IntN(12)
+			g.added = append(g.added, c07Shadow{id: g.nextID, ts: t, host: c07Norm(qn), cid: cid, ip: ip})
+			g.emit("C07.addat", strconv.Itoa(g.nextID), strconv.FormatInt(t, 10), vutil.Hex(qn), vutil.Hex(cid), vutil.Hex(ip),
+				vutil.Hex(c07Anon(ip)), strconv.Itoa(reason), vutil.B(reason >= 3 && reason <= 8), strconv.Itoa(r.IntN(1<<22)))
+		case k < 78:
+			g.emit("C07.shutdown")
+		case k < 83:
+			g.emit("C07.rotate")
+		case k < 88:
+			g.emit("C07.restart", strconv.Itoa(g.memSize), vutil.B(g.fileOn), "1")
+		default:
+			read()
+		}
+	}
+	g.emitSearch(0, "none", "-", "", "", "", "")
+	g.emitSearch(0, "none", "-", "200", "0", "", "")
+	for i, n := 0, 2+r.IntN(4); i < n; i++ {
+		read()
+	}
+	if r.IntN(2) == 0 {
+		g.emit("C07.shutdown")
+		g.emitSearch(0, "none", "-", "", "", "", "")
+		g.emitSearch(0, "none", "-", "100", "0", "", "")
 	}
 }
 
@@ -1650,6 +1801,9 @@ func c07GenAll(r *rand.Rand, emit vutil.Emit) {
 	}
 	for i := 0; i < n; i++ {
 		g.block()
+		if i%6 == 5 {
+			g.steppedBlock()
+		}
 	}
 	if vutil.Thorough() {
 		g.bigBlock()
